@@ -6,6 +6,7 @@ import (
 	"fmt"
 	"io"
 	"reflect"
+	"strings"
 
 	"github.com/go-json-experiment/json"
 	"github.com/go-json-experiment/json/jsontext"
@@ -25,8 +26,8 @@ type UCase struct {
 	UTF8   bool   `json:"allow_invalid_utf8"`
 	Dup    bool   `json:"allow_duplicate_names"`
 	Sched  Sched  `json:"sched"`
-	Target int    `json:"target"` // see newTarget
-	Stream bool   `json:"stream"` // UnmarshalDecode over a stream instead of UnmarshalRead
+	Target int    `json:"target"`           // see newTarget
+	Stream bool   `json:"stream"`           // UnmarshalDecode over a stream instead of UnmarshalRead
 	Legacy bool   `json:"legacy,omitempty"` // with v1.ReportErrorsWithLegacySemantics(true): the input is validated ahead of decoding
 }
 
@@ -385,4 +386,206 @@ func genRecDoc(t *rapid.T, cfg gen.DocCfg, depth int) []byte {
 	}
 	b.WriteByte('}')
 	return b.Bytes()
+}
+
+// ---------------------------------------------------------------------------
+// sub-check "unmarshal-faults": transient read errors at the boundaries between
+// the top-level values of a stream read with UnmarshalDecode. A failed read is
+// reported as that error; it is never turned into io.EOF (the reader has not
+// reported the end of its data), and the retried call delivers the next value.
+
+// UFCase is a stream of valid values with faults before some of them.
+type UFCase struct {
+	Docs   [][]byte `json:"docs"`
+	Sep    []byte   `json:"sep"`    // whitespace written after every value
+	Faults []int    `json:"faults"` // Faults[i]: number of failed reads before value i is delivered (index len(Docs): before the end of input)
+	Target int      `json:"target"` // 0 any, 1 jsontext.Value, 2 type with UnmarshalJSONFrom, 3 any through an UnmarshalFromFunc, 4 struct field of the hook type
+	Legacy bool     `json:"legacy,omitempty"`
+}
+
+// hookFrom stores the value it is asked to decode.
+type hookFrom struct{ Raw []byte }
+
+func (h *hookFrom) UnmarshalJSONFrom(dec *jsontext.Decoder) error {
+	v, err := dec.ReadValue()
+	h.Raw = append(h.Raw[:0], v...)
+	return err
+}
+
+type boundaryReader struct {
+	segs   [][]byte
+	faults []int
+	i      int
+	eof    bool
+	fired  int
+}
+
+func (r *boundaryReader) Read(p []byte) (int, error) {
+	if r.i < len(r.faults) && r.faults[r.i] > 0 {
+		r.faults[r.i]--
+		r.fired++
+		return 0, errT
+	}
+	if r.i >= len(r.segs) {
+		r.eof = true
+		return 0, io.EOF
+	}
+	if len(p) == 0 {
+		return 0, nil
+	}
+	n := copy(p, r.segs[r.i])
+	r.segs[r.i] = r.segs[r.i][n:]
+	if len(r.segs[r.i]) == 0 {
+		r.i++
+	}
+	return n, nil
+}
+
+func genUF(t *rapid.T) UFCase {
+	c := UFCase{Target: rapid.IntRange(0, 4).Draw(t, "target"), Legacy: rapid.IntRange(0, 3).Draw(t, "legacy") == 0,
+		Sep: []byte(rapid.SampledFrom([]string{"\n", " ", "", "\n\n", " \t\r\n"}).Draw(t, "sep"))}
+	n := rapid.IntRange(1, 5).Draw(t, "ndocs")
+	cfg := gen.DocCfg{WS: true, MaxDepth: 3}
+	for i := 0; i < n; i++ {
+		d := gen.Doc(t, cfg)
+		if len(c.Sep) == 0 && len(d) > 0 && d[0] != '{' && d[0] != '[' && d[0] != '"' {
+			d = append([]byte("["), append(d, ']')...) // adjacent scalars need a separator
+		}
+		if c.Target == 4 {
+			d = append([]byte(`{"H":`), append(d, '}')...)
+		}
+		c.Docs = append(c.Docs, d)
+	}
+	for i := 0; i <= n; i++ {
+		c.Faults = append(c.Faults, rapid.SampledFrom([]int{0, 0, 1, 1, 2}).Draw(t, "nfaults"))
+	}
+	return c
+}
+
+// RunUF decides one UFCase.
+func RunUF(c UFCase) error {
+	rec.Eval()
+	var whole []byte
+	rd := &boundaryReader{faults: append([]int(nil), c.Faults...)}
+	for _, d := range c.Docs {
+		if _, err := ref.Parse(d, ref.Opt{}); err != nil {
+			rec.Class("unmarshal-faults:invalid-doc(not a case)")
+			return nil
+		}
+		seg := append(append([]byte(nil), d...), c.Sep...)
+		rd.segs = append(rd.segs, seg)
+		whole = append(whole, seg...)
+	}
+	for len(rd.faults) < len(rd.segs)+1 {
+		rd.faults = append(rd.faults, 0)
+	}
+	total := 0
+	for _, f := range rd.faults {
+		total += f
+	}
+	var opts []json.Options
+	if c.Legacy {
+		opts = append(opts, jsonv1.ReportErrorsWithLegacySemantics(true))
+	}
+	if c.Target == 3 {
+		opts = append(opts, json.WithUnmarshalers(json.UnmarshalFromFunc(func(dec *jsontext.Decoder, p *any) error {
+			v, err := dec.ReadValue()
+			*p = string(v)
+			return err
+		})))
+	}
+	mk := func() any {
+		switch c.Target {
+		case 1:
+			return new(jsontext.Value)
+		case 2:
+			return new(hookFrom)
+		case 4:
+			return new(struct{ H hookFrom })
+		}
+		return new(any)
+	}
+	for _, d := range c.Docs {
+		// every value must be acceptable alone, else the stream proves nothing
+		if err := json.Unmarshal(d, mk(), opts...); err != nil {
+			rec.Class("unmarshal-faults:value-rejected-alone(not a case)")
+			return nil
+		}
+	}
+	dec := jsontext.NewDecoder(rd)
+	ctx := fmt.Sprintf("stream %q, failed reads before each value %v, target %d, legacy=%v", clip(whole), c.Faults, c.Target, c.Legacy)
+	i, surfaced := 0, 0
+	for step := 0; step < 2*(len(c.Docs)+total)+4; step++ {
+		tgt := mk()
+		var err error
+		if p := rt.Guard(func() { err = json.UnmarshalDecode(dec, tgt, opts...) }); p != nil {
+			return fmt.Errorf("UnmarshalDecode panicked: %v (%s)", p, ctx)
+		}
+		switch {
+		case err == nil:
+			if i >= len(c.Docs) {
+				return fmt.Errorf("UnmarshalDecode delivered more values than the stream holds (%s)", ctx)
+			}
+			want := strings.TrimSpace(string(c.Docs[i]))
+			switch v := tgt.(type) {
+			case *jsontext.Value:
+				if string(*v) != want {
+					return fmt.Errorf("value #%d: got %q, the stream holds %q (%s)", i, *v, want, ctx)
+				}
+			case *hookFrom:
+				if string(v.Raw) != want {
+					return fmt.Errorf("value #%d: UnmarshalJSONFrom saw %q, the stream holds %q (%s)", i, v.Raw, want, ctx)
+				}
+			case *any:
+				if c.Target == 3 {
+					if s, _ := (*v).(string); s != want {
+						return fmt.Errorf("value #%d: the UnmarshalFromFunc saw %q, the stream holds %q (%s)", i, *v, want, ctx)
+					}
+				} else {
+					var w any
+					if werr := json.Unmarshal(c.Docs[i], &w); werr == nil && !reflect.DeepEqual(*v, w) {
+						return fmt.Errorf("value #%d: got %#v, Unmarshal of %q gives %#v (%s)", i, *v, c.Docs[i], w, ctx)
+					}
+				}
+			}
+			i++
+		case errors.Is(err, errT):
+			surfaced++
+			if c.Target == 4 {
+				// a struct is decoded member by member: a fault inside it leaves
+				// the decoder mid-value, which the statement does not constrain
+				rec.Class("unmarshal-faults:struct-target-stops-at-first-fault")
+				return nil
+			}
+		case err == io.EOF:
+			if !rd.eof {
+				return fmt.Errorf("UnmarshalDecode returned io.EOF after %d of %d values although the reader never reported the end of its data: a failed read was turned into the end of the stream (%s)", i, len(c.Docs), ctx)
+			}
+			if i != len(c.Docs) {
+				return fmt.Errorf("UnmarshalDecode returned io.EOF after %d of %d values (%s)", i, len(c.Docs), ctx)
+			}
+			if total > 0 {
+				fp := cov.FP(whole, []byte(fmt.Sprint(c.Faults, c.Target, c.Legacy)), []byte("ufaults"))
+				rec.NonTrivial(fp)
+				rec.Sample(fp, func() any {
+					return map[string]any{"check": "unmarshal-faults", "stream": string(clip(whole)), "failed_reads_before_value": c.Faults, "target": c.Target, "faults_surfaced": surfaced}
+				})
+				rec.Class("unmarshal-faults:stream-with-faults-completed")
+			}
+			return nil
+		default:
+			if i == len(c.Docs) {
+				// Every value was delivered; how the end of the input is reported
+				// after a failed read is not constrained by the statement (its
+				// fault clause names ReadToken, ReadValue and PeekKind). Observed:
+				// for targets with UnmarshalJSONFrom the failed read is absorbed by
+				// the end-of-input probe and the method's ReadValue then meets
+				// io.EOF, reported as a SemanticError wrapping "unexpected EOF".
+				rec.Class("unmarshal-faults:error-after-last-value(not constrained)")
+				return nil
+			}
+			return fmt.Errorf("UnmarshalDecode failed with %v (%T) on a stream of valid values after %d of %d (%s)", err, err, i, len(c.Docs), ctx)
+		}
+	}
+	return fmt.Errorf("UnmarshalDecode neither finished the stream nor reported its end within the step budget (%s)", ctx)
 }
